@@ -1311,6 +1311,16 @@ impl Gen {
                 _ => {}
             }
         }
+        if crate::check::release_build() && self.p.mode != Mode::Crash && self.rng.chance(1, 2) {
+            // the release-like build grows the map in chunks of 4 MiB, which small events never fill:
+            // early in the run the map is lengthened to a little short of a chunk boundary (as after
+            // megabytes of events long gone), so that growth, remaps and everything keyed to the
+            // chunk size take part in this leg as well
+            let n = 1 + self.rng.below(3);
+            let delta = *self.rng.pick(&[0u64, 56, 300, 2000, 9000, 30000, 70000]);
+            let pos = (1 + self.rng.usize(5)).min(ops.len());
+            ops.insert(pos, Op::Inflate(n * 4 * 1024 * 1024 - delta));
+        }
         if self.rng.chance(self.p.drain_pct, 100) {
             // remove every retrievable event by a mix of paths; afterwards all indexes must be empty
             let mut guard = 0;
@@ -1596,6 +1606,87 @@ fn pair_duel_trace(prop: &str, seed: u64) -> Trace {
     }
     Trace {
         cfg: Cfg { prop: prop.to_string(), mode: Mode::Seq, seed, blocker: false, extra_tables: 0, obs_level: 1, drain: false },
+        ops,
+        threads: vec![],
+        schedule: vec![],
+        expect: None,
+    }
+}
+
+/// A store that has to walk a long index range before it is refused or fails: one author with a
+/// holder at a parameterised address and 130-300 other events of his carrying the same `d` value
+/// (other kinds: they lie in the same author-`d` range and are not at the address), or 130-300
+/// events of one (author, kind) range; then a deletion request for the address that is refused at
+/// its second tag (it names somebody else's event), an older version that is refused as replaced, a
+/// newer version whose store fails after the walk (injected), a request that runs out of reader
+/// slots. Nothing may have changed after any of them, however far the walk got.
+fn long_walk_refusal_trace(prop: &str, seed: u64) -> Trace {
+    let mut p = profile(prop);
+    p.size_w = [60, 40, 0, 0, 0];
+    let mut g = Gen::new(seed, p);
+    let a = g.authors[0];
+    let b = g.authors[1];
+    let mut ops: Vec<Op> = vec![Op::Clock(Some(g.clock))];
+    let dval = (*g.rng.pick(&["x", "walk", ""])).to_string();
+    let kind: u16 = *g.rng.pick(&[30000u16, 30023, 39999]);
+    let mk = |g: &mut Gen, pk: B32, kind: u16, at: u64, tags: Vec<Vec<String>>| EvSpec { id: g.rng.bytes32(), pk, kind, at, tags, content: vec![(at & 0x7f) as u8; 3] };
+    let holder = mk(&mut g, a, kind, T0 + 50, vec![vec!["d".into(), dval.clone()]]);
+    g.apply_store_to_gen_model(&holder);
+    ops.push(Op::Store(holder.clone()));
+    let victim = mk(&mut g, b, 1, T0 + 5, vec![]);
+    g.apply_store_to_gen_model(&victim);
+    ops.push(Op::Store(victim.clone()));
+    let n = *g.rng.pick(&[130usize, 140, 200, 257, 300]);
+    let same_range_other_kinds = g.rng.chance(2, 3);
+    for i in 0..n {
+        let at = T0 + (i as u64 % 40);
+        let e = if same_range_other_kinds {
+            // same author, same `d` value, another kind: in the author-`d` range, not at the address
+            let k2 = *g.rng.pick(&[1u16, 7, 30001, 1059]);
+            mk(&mut g, a, k2, at, vec![vec!["d".into(), dval.clone()]])
+        } else {
+            mk(&mut g, a, 1, at, vec![vec!["t".into(), "walk".into()]])
+        };
+        if e.kind == 30001 && g.model.holders(&e.addr().unwrap()).iter().any(|h| h.at >= e.at) {
+            continue;
+        }
+        g.apply_store_to_gen_model(&e);
+        ops.push(Op::Store(e));
+    }
+    let atag = vec!["a".to_string(), format!("{}:{}:{}", kind, hex(&a), dval)];
+    for _ in 0..g.rng.range(2, 5) {
+        match g.rng.below(5) {
+            0 | 1 => {
+                // the address (walk, removal, marker) and then somebody else's event: refused
+                let del = mk(&mut g, a, 5, T0 + 60, vec![atag.clone(), vec!["e".into(), hex(&victim.id)]]);
+                g.apply_store_to_gen_model(&del);
+                ops.push(Op::Store(del));
+            }
+            2 => {
+                // an older version: refused as replaced after the walk
+                let old = mk(&mut g, a, kind, T0 + 40, vec![vec!["d".into(), dval.clone()]]);
+                g.apply_store_to_gen_model(&old);
+                ops.push(Op::Store(old));
+            }
+            3 => {
+                // a newer version whose store fails after the walk (and is retried)
+                let at2 = T0 + 51 + g.rng.below(5);
+                let newer = mk(&mut g, a, kind, at2, vec![vec!["d".into(), dval.clone()]]);
+                g.apply_store_to_gen_model(&newer);
+                ops.push(Op::Fail(g.rng.below(4) as u32));
+                ops.push(Op::Store(newer));
+            }
+            _ => {
+                let del = mk(&mut g, a, 5, T0 + 61, vec![atag.clone()]);
+                ops.push(Op::Starve);
+                ops.push(Op::Store(del.clone()));
+                g.apply_store_to_gen_model(&del);
+                ops.push(Op::Store(del));
+            }
+        }
+    }
+    Trace {
+        cfg: Cfg { prop: prop.to_string(), mode: Mode::Seq, seed, blocker: false, extra_tables: 0, obs_level: 9, drain: false },
         ops,
         threads: vec![],
         schedule: vec![],
@@ -1945,6 +2036,9 @@ pub fn generate(prop: &str, seed: u64) -> Trace {
     }
     if matches!(prop, "C09" | "C10" | "C11" | "C16") && seed % 16 == 5 {
         return pair_duel_trace(prop, seed);
+    }
+    if matches!(prop, "C12" | "C10" | "C09") && seed % 32 == 7 {
+        return long_walk_refusal_trace(prop, seed);
     }
     let mut p = profile(prop);
     if thorough() {
